@@ -20,7 +20,7 @@ for prof in checked plain; do
 done
 export VERIF_PLAIN_BIN=$A/target-plain/plain/harness
 # the real binary of the changed tree (conformance stages of C14 / C19)
-case " $* " in *" C14 "*|*" C19 "*)
+case " $* " in *" C14 "*|*" C19 "*|*" C01 "*|*" C15 "*)
   ( cd $A/repo && CARGO_TARGET_DIR=$A/target-repo cargo build --release --offline 2>&1 | grep -E "^error" -A6 | head -20 )
   export VERIF_REAL_BIN=$A/target-repo/release/rustybait;;
 esac
